@@ -5,7 +5,8 @@
     theorem shows that the pre-fix order of updates ([stale = true]) violates the property. *)
 From Coq Require Import List Arith Bool ZArith QArith Qreduction Lia.
 From PV Require Import Base.ListUtil Base.QUtil Base.FirstArgmax Base.MixedRadix Model.Store Model.Archive
-     Proofs.ArchiveProofs Proofs.C01Proofs Proofs.C07Proofs Model.Sliding Proofs.SlidingProofs.
+     Proofs.ArchiveProofs Proofs.C01Proofs Proofs.C07Proofs Model.Sliding Proofs.SlidingProofs
+     Model.SlidingIndex Proofs.SlidingBridge.
 Import ListNotations.
 Local Open Scope nat_scope.
 
@@ -112,6 +113,16 @@ Theorem C15_index_in_range : forall eps dims g m,
 Proof. exact sindex_lt. Qed.
 End C15.
 
+(** the index map of this model IS the one C03 verifies (Model/SlidingIndex.v): per dimension and flattened *)
+Theorem C15_index_is_C03_index_1 : forall eps d b lo hi m, sidx1 eps d b lo hi m = sb_idx1 d b lo hi eps m.
+Proof. exact sidx1_eq. Qed.
+
+Theorem C15_index_is_C03_index : forall eps dims (g : geom) m,
+  length (g_bnd g) = length dims -> length (g_lo g) = length dims -> length (g_hi g) = length dims ->
+  Z.of_nat (sindex eps dims g m) =
+  sb_index_of_one (sdims eps dims (g_bnd g) (g_lo g) (g_hi g)) (map (fun x => (x + eps)%Q) m).
+Proof. exact sindex_eq. Qed.
+
 (** non-vacuity and the pre-fix defect (F8): dims = [4], ranges = [(0,1)], remap_frequency = 4, four insertions
     with measures 5, 6, 7, 8 and objectives 1, 1, 2, 1.  With the bounds refreshed before the re-insertion 5, 6, 7 get cells 0, 1, 2 and 8
     (clipped to 8 - eps, below the last boundary) shares cell 2 with the better 7; with the stale bounds (pre-fix code) every re-inserted solution is clipped to
@@ -163,3 +174,5 @@ Print Assumptions C15_nothing_lost.
 Print Assumptions C15_invariant.
 Print Assumptions C15_index_in_range.
 Print Assumptions C15_stale_refuted.
+Print Assumptions C15_index_is_C03_index_1.
+Print Assumptions C15_index_is_C03_index.
